@@ -1,14 +1,22 @@
 (** C16 — lemmas about Model/C16_Vcf.v: the record built from a VCF data line through the generated attribute selectors is
-    (CHROM, POS as cyvcf2 gives it, ID or "None", the calls) — closed by [reflexivity], so an importer that reads another
-    attribute (variant.end, variant.start, ...) makes this file, hence Props/C16.vo, stop compiling. *)
+    (CHROM, the coordinate of the POS column itself, ID or "None", the calls) — closed by [reflexivity] up to
+    (pos - 1) + 1 = pos, so an importer that reads another attribute (variant.end, variant.start, the 32-bit variant.POS, ...)
+    makes this file, hence Props/C16.vo, stop compiling.  The FORMER importers (variant.POS) are kept as [old_rec_of_line] /
+    [old_vcf_text_import] with their refutation. *)
 From Coq Require Import String PrimFloat Permutation Sorted Lia.
 From PV Require Import Lib.Common Lib.FloatK Model.C16_Store Model.C16_Codec Gen.C16_Kernel Model.C16_Vcf Proofs.C16_Codec.
 Local Open Scope Z_scope.
 
 Definition id_text (l : vline) : str := match l_id l with Some s => s | None => none_str end.
 
-Lemma rec_of_line_model ph l : rec_of_line ph l = mkV (l_chrom l) (wrap32 (l_pos l)) (Some (id_text l)) (l_gt l).
-Proof. destruct ph; unfold rec_of_line, id_text; destruct (l_id l); reflexivity. Qed.
+Lemma rec_of_line_model ph l : rec_of_line ph l = mkV (l_chrom l) (l_pos l) (Some (id_text l)) (l_gt l).
+Proof.
+  assert (E : l_pos l - 1 + 1 = l_pos l) by lia.
+  destruct ph; unfold rec_of_line, id_text, k_vcf_pgm_phypos, k_vcf_gm_phypos, a_start; rewrite E; destruct (l_id l); reflexivity.
+Qed.
+(** the former importers read the 32-bit attribute *)
+Lemma old_rec_of_line_model l : old_rec_of_line l = mkV (l_chrom l) (wrap32 (l_pos l)) (Some (id_text l)) (l_gt l).
+Proof. reflexivity. Qed.
 
 Lemma layout_current : layout_ok true = true /\ layout_ok false = true.
 Proof. split; reflexivity. Qed.
@@ -20,9 +28,9 @@ Proof. intro H. unfold wrap32. rewrite Z.mod_small by lia. lia. Qed.
 Definition dline : vline := mkL 0 0 None [] [] [].
 
 (** without grouping every array is the file text, line by line: CHROM, POS, ID ('.' read as "None"), the GT calls — whatever
-    REF and ALT are (deletions, insertions, MNPs, several ALT alleles), for coordinates a 32-bit POS holds *)
+    REF and ALT are (deletions, insertions, MNPs, several ALT alleles), for EVERY coordinate (no 32-bit caveat: the position is
+    variant.start + 1, a 64-bit attribute) *)
 Theorem vcf_text_import_exact (phased : bool) (n : nat) (lines : list vline) :
-  Forall in_range32 lines ->
   let o := vcf_text_import phased n lines false in
   vo_chr o = map l_chrom lines /\ vo_pos o = map l_pos lines /\ vo_name o = map id_text lines /\ vo_meta o = None
   /\ (forall i j, (i < n)%nat -> (j < length lines)%nat ->
@@ -30,11 +38,11 @@ Theorem vcf_text_import_exact (phased : bool) (n : nat) (lines : list vline) :
         if phased then nth j (nth i (nth 0 (vo_mat o) []) []) 0 = fst g /\ nth j (nth i (nth 1 (vo_mat o) []) []) 0 = snd g
         else nth j (nth i (nth 0 (vo_mat o) []) []) 0 = fst g + snd g).
 Proof.
-  intros Hr. cbn zeta. unfold vcf_text_import.
+  cbn zeta. unfold vcf_text_import.
   destruct (vcf_import_exact phased n (map (rec_of_line phased) lines)) as (Hc & Hp & Hn & Hm & Hg).
   rewrite Hc, Hp, Hn, Hm, !map_map. repeat split.
   - apply map_ext. intro l. rewrite rec_of_line_model. reflexivity.
-  - apply map_ext_in. intros l Hl. rewrite rec_of_line_model. cbn. apply wrap32_id. rewrite Forall_forall in Hr. exact (Hr l Hl).
+  - apply map_ext. intro l. rewrite rec_of_line_model. reflexivity.
   - apply map_ext. intro l. rewrite rec_of_line_model. reflexivity.
   - intros i j Hi Hj. specialize (Hg i j Hi). rewrite map_length in Hg. specialize (Hg Hj). cbn zeta in Hg.
     assert (E : vgt (nth j (map (rec_of_line phased) lines) (mkV 0 0 None [])) = l_gt (nth j lines dline)).
@@ -61,23 +69,37 @@ Theorem vcf_text_import_ref_alt_irrelevant (phased : bool) (n : nat) (auto_group
 Proof.
   intro H. unfold vcf_text_import.
   set (F := fun c : Z * Z * option str * list (Z * Z) =>
-              mkV (fst (fst (fst c))) (wrap32 (snd (fst (fst c)))) (Some (match snd (fst c) with Some s => s | None => none_str end)) (snd c)).
+              mkV (fst (fst (fst c))) (snd (fst (fst c))) (Some (match snd (fst c) with Some s => s | None => none_str end)) (snd c)).
   assert (E : forall l, rec_of_line phased l = F (line_core l)) by (intro l; rewrite rec_of_line_model; reflexivity).
   rewrite (map_ext _ _ E ls), (map_ext _ _ E ls'), <- !(map_map line_core F), H. reflexivity.
 Qed.
 
-(** a coordinate beyond 2^31 - 1 is NOT reproduced (cyvcf2's POS is a 32-bit field; the importers read it) *)
+(** regression witness, about the FORMER importers ([old_vcf_text_import]: vrnt_phypos.append(variant.POS), cyvcf2's 32-bit field):
+    a coordinate beyond 2^31 - 1 was NOT reproduced (finding C16-vcf-pos-int32-wrap, repaired); the same line imports exactly now *)
 Definition w_big : vline := mkL 1 2147483648 None [65] [67] [(0, 1)].
-Theorem vcf_text_pos_refuted :
-  exists l : vline, l_pos l = 2147483648 /\ forall ph ag, vo_pos (vcf_text_import ph 1 [l] ag) = [-2147483648].
-Proof. exists w_big. split; [reflexivity | intros [] []; vm_compute; reflexivity]. Qed.
+Theorem old_vcf_text_pos_refuted :
+  exists l : vline, l_pos l = 2147483648 /\ (forall ph ag, vo_pos (old_vcf_text_import ph 1 [l] ag) = [-2147483648])
+                    /\ (forall ph ag, vo_pos (vcf_text_import ph 1 [l] ag) = [2147483648]).
+Proof. exists w_big. split; [reflexivity | split; intros [] []; vm_compute; reflexivity]. Qed.
+(** ... and with grouping the former importers ordered the variants by the wrapped values *)
+Lemma old_vcf_text_order_refuted :
+  let ls := [mkL 1 5000000000 None [65] [67] [(0, 1)]; mkL 1 2147483647 None [65] [67] [(1, 1)]] in
+  forall ph, vo_pos (old_vcf_text_import ph 1 ls true) = [705032704; 2147483647] /\ vo_pos (vcf_text_import ph 1 ls true) = [2147483647; 5000000000].
+Proof. intros ls []; split; vm_compute; reflexivity. Qed.
+(** the former importers agree with the current ones on every coordinate a 32-bit field holds *)
+Lemma old_vcf_text_import_in_range ph n lines ag :
+  Forall in_range32 lines -> old_vcf_text_import ph n lines ag = vcf_text_import ph n lines ag.
+Proof.
+  intro Hr. unfold old_vcf_text_import, vcf_text_import. f_equal. apply map_ext_in. intros l Hl.
+  rewrite old_rec_of_line_model, rec_of_line_model, wrap32_id; [reflexivity | rewrite Forall_forall in Hr; exact (Hr l Hl)].
+Qed.
 
-(** witness for the hypotheses: a deletion, an insertion without identifier, an MNP at the largest 32-bit coordinate *)
+(** concrete non-trivial value: a deletion, an insertion without identifier, an MNP at the largest 32-bit coordinate, a SNP beyond 2^32 *)
 Definition w_lines : list vline :=
   [mkL 3 100 (Some [114; 115; 49]) [65; 67; 71; 84] [65] [(0, 1); (1, 0)]; mkL 1 50 None [65] [65; 67; 67] [(1, 1); (0, 0)];
-   mkL 1 2147483647 (Some [109]) [65; 67] [71; 84] [(0, 0); (1, 0)]].
-Lemma w_lines_in_range : Forall in_range32 w_lines.
-Proof. repeat constructor; unfold in_range32; cbn; lia. Qed.
-Lemma w_lines_result : vo_pos (vcf_text_import true 2 w_lines false) = [100; 50; 2147483647]
-                       /\ vo_pos (vcf_text_import false 2 w_lines true) = [50; 2147483647; 100].
+   mkL 1 2147483647 (Some [109]) [65; 67] [71; 84] [(0, 0); (1, 0)]; mkL 1 5000000000 None [65] [67] [(1, 0); (0, 1)]].
+Lemma w_lines_result : vo_pos (vcf_text_import true 2 w_lines false) = [100; 50; 2147483647; 5000000000]
+                       /\ vo_pos (vcf_text_import false 2 w_lines true) = [50; 2147483647; 5000000000; 100].
 Proof. split; vm_compute; reflexivity. Qed.
+Lemma w_lines_prefix_in_range : Forall in_range32 (firstn 3 w_lines).
+Proof. repeat constructor; unfold in_range32; cbn; lia. Qed.
